@@ -494,6 +494,29 @@ func jobC18(c *rt.Ctx) {
 				if out != e.x {
 					report("Copy", e, nil, &out, e.v, "copy differs")
 				}
+				// unary operations written over their operand (out == in), as the group law does
+				t := e.x
+				Neg(&t, &t)
+				if valueOf(&t).Cmp(want) != 0 {
+					report("Neg-inplace", e, nil, &t, want, "wrong residue when out aliases the operand")
+				}
+				t = e.x
+				Square(&t, &t)
+				if valueOf(&t).Cmp(fmul(e.v, e.v)) != 0 {
+					report("Square-inplace", e, nil, &t, fmul(e.v, e.v), "wrong residue when out aliases the operand")
+				}
+				t = e.x
+				SquareTimes(&t, &t, 3)
+				w8 := fmul(fmul(fmul(e.v, e.v), fmul(e.v, e.v)), fmul(fmul(e.v, e.v), fmul(e.v, e.v)))
+				if valueOf(&t).Cmp(w8) != 0 {
+					report("SquareTimes-inplace", e, nil, &t, w8, "wrong residue when out aliases the operand")
+				}
+				t = e.x
+				Copy(&t, &t)
+				if t != e.x {
+					report("Copy-inplace", e, nil, &t, e.v, "self copy changed the value")
+				}
+				c.Step(4)
 			}
 			// Contract: unique canonical value below p for every representation
 			var cb [32]byte
